@@ -35,7 +35,8 @@ type UnitResult struct {
 	Samples     []any
 	Outcomes    map[string]int64
 	Wall        time.Duration
-	Err         error
+	Err         error `json:"-"`
+	ErrStr      string
 }
 
 type Unit interface {
